@@ -16,6 +16,7 @@ mjcf_schema_test run with the contracts enabled.
 import importlib.util
 import json
 import os
+import re
 import sys
 import time
 import traceback
@@ -181,7 +182,14 @@ def judge(P, text, cat, expect=None, label=None, model=None, line_of=None):
                     if fr.filename.endswith("mjcf_schema.py"):
                         where = fr.name
                         break
-                P.violation("escaping-exception:%s:in-%s" % (desc, where), dict(detail, exception=desc))
+                sig = "escaping-exception:%s:in-%s" % (desc, where)
+                if desc == "RecursionError":
+                    # the recorded finding is about use graphs deeper than the interpreter's recursion limit; a RecursionError on a
+                    # small use graph is a different defect (e.g. a cycle that is never detected) and must not be absorbed by it
+                    ngroups = len(re.findall(r"^\s*group\s+\w+", text, flags=re.M))
+                    if ngroups < 250:
+                        sig += ":use-graph-of-only-%s-groups" % ("<10" if ngroups < 10 else "<250")
+                P.violation(sig, dict(detail, exception=desc))
                 P.case("%s/escape-%s" % (cat, desc))
                 return "escape"
         P.violation("schema-error-line-outside-text", dict(detail, observed=desc))
@@ -260,10 +268,32 @@ def _deep(rng, quick):
         if rng.random() < 0.5:
             body = body + "element e {\n  use g0\n}\n"
         return "use-chain-%d" % n, body, "accept"
+    if c == 1 and rng.random() < 0.5:
+        return _tail_cycle(rng)
     if c == 1:      # long use cycle
         n = int(rng.choice([3, 30, 300] if quick else [3, 30, 300, 900, 2000]))
         body = "".join("group g%d {\n  use g%d\n}\n" % (i, (i + 1) % n) for i in range(n))
         return "use-cycle-%d" % n, body, "reject"
+    return _deep_rest(rng, quick, c)
+
+
+def _tail_cycle(rng):
+    """a tail of groups leading INTO a small use cycle, in every declaration order: (label, text, 'reject')"""
+    if True:
+        k, mcy = int(rng.integers(1, 4)), int(rng.integers(1, 6))
+        decl = ["group t%d {\n  use %s\n}\n" % (i, ("t%d" % (i + 1)) if i + 1 < k else "c0") for i in range(k)]
+        decl += ["group c%d {\n  use c%d\n  b%d : int\n}\n" % (i, (i + 1) % mcy, i) for i in range(mcy)]
+        order = int(rng.integers(0, 3))
+        if order == 1:
+            decl = decl[k:] + decl[:k]
+        elif order == 2:
+            decl = [decl[int(j)] for j in rng.permutation(len(decl))]
+        if rng.random() < 0.3:
+            decl.append("element e {\n  use t0\n}\n")
+        return "tail-%d-into-cycle-%d-order%d" % (k, mcy, order), "".join(decl), "reject"
+
+
+def _deep_rest(rng, quick, c):
     if c == 2:      # diamond ladder: each group spliced twice (valid as long as no element expands it)
         n = int(rng.integers(2, 13))
         body = "".join("group g%d {\n  use g%d\n  use g%d\n}\n" % (i, i + 1, i + 1) for i in range(n)) + \
@@ -317,6 +347,10 @@ def worker(case):
             m = R.gen_model(rng, max_decls=int(rng.integers(1, 12)))
             text, _ = R.render(m, rng)
             judge(P, _token_mutation(rng, text), cat)
+    elif cat == "cycle":
+        for _ in range(n):
+            label, text, expect = _tail_cycle(rng)
+            judge(P, text, cat, "reject", "use-cycle")
     elif cat == "deep":
         for _ in range(n):
             label, text, expect = _deep(rng, quick)
@@ -397,7 +431,7 @@ def _repo_tests(ctx):
 
 def run(ctx):
     total = ctx.pick(5000, 200000)
-    mix = {"valid": 0.22, "rule": 0.30, "token": 0.22, "deep": 0.004 if not ctx.quick else 0.008, "real": 0.04,
+    mix = {"valid": 0.22, "rule": 0.30, "token": 0.22, "deep": 0.004 if not ctx.quick else 0.008, "cycle": 0.03, "real": 0.04,
            "hyp-tokens": 0.12, "hyp-unicode": 0.096}
     cases = []
     for cat, frac in mix.items():
